@@ -609,3 +609,71 @@ pub fn long_chain_space() -> ByteSpace {
         }
     })
 }
+
+/// Datagrams of every tile count 1..=`max_n` (see `gens::dense_bound`): well-formed tiles of mixed sizes, ending
+/// exactly / with the last length field one word too large / with one stray byte / with a header that claims more than
+/// is left. An up-front walk, a tile cache or a "reasonable maximum" of any size in between shows at its own number.
+pub fn dense_chain_space(max_n: usize) -> ByteSpace {
+    let menu = tile_menu();
+    let good: Vec<Vec<u8>> = vec![menu[0].clone(), menu[1].clone(), menu[2].clone(), menu[8].clone(), menu[3].clone()];
+    ByteSpace::new("tile-chains-of-every-length", max_n as u64 * 4, move |idx, out| {
+        out.clear();
+        let n = (idx / 4) as usize + 1;
+        let tail = idx % 4;
+        let mut last = 0usize;
+        for i in 0..n {
+            last = out.len();
+            // a padded tile may only be judged differently when it is not last; keep the last tile unpadded for
+            // the exact tail so that the well-formed reading is beyond doubt
+            let mut k = (i * 3 + i / 16 + n) % good.len();
+            if i + 1 == n && k == 3 {
+                k = 1;
+            }
+            out.extend_from_slice(&good[k]);
+        }
+        match tail {
+            0 => {}
+            1 => {
+                let f = crate::refmodel::read::rd16(out, last + 2).wrapping_add(1);
+                out[last + 2] = (f >> 8) as u8;
+                out[last + 3] = f as u8;
+            }
+            2 => out.push(0x80),
+            _ => out.extend_from_slice(&[0x80, 203, 0, 9, 1, 2, 3, 4]),
+        }
+    })
+}
+
+/// Exactly framed packets of every length 4, 8 ... 4 * `max_words` bytes for each packet type the crate knows and two
+/// it does not: without padding, with a legal padding count, with a zero count and with the largest count a byte holds
+/// (sizes between the small header space and the giants: MTU-like sizes, inline buffer sizes).
+pub fn dense_size_space(max_words: usize) -> ByteSpace {
+    const PTS: [u8; 9] = [200, 201, 202, 203, 204, 205, 206, 199, 255];
+    ByteSpace::new("exactly-framed-packets-of-every-size", max_words as u64 * PTS.len() as u64 * 4, move |idx, out| {
+        out.clear();
+        let words = (idx / (PTS.len() as u64 * 4)) as usize + 1;
+        let pt = PTS[((idx / 4) % PTS.len() as u64) as usize];
+        let variant = idx % 4;
+        let len = words * 4;
+        let count = match pt {
+            200 | 201 | 203 => (words % 3) as u8, // some announce more blocks / sources than there is room for
+            205 => 1,
+            206 => [1u8, 2, 3, 4][words % 4],
+            _ => (words % 32) as u8,
+        };
+        out.push(0x80 | if variant > 0 { 0x20 } else { 0 } | count);
+        out.push(pt);
+        out.push(((words - 1) >> 8) as u8);
+        out.push((words - 1) as u8);
+        for i in 4..len {
+            out.push(((i * 7 + words) % 251) as u8 | 1);
+        }
+        if variant > 0 && len > 4 {
+            out[len - 1] = match variant {
+                1 => 4,
+                2 => 0,
+                _ => 255,
+            };
+        }
+    })
+}
